@@ -39,3 +39,24 @@ Proof.
                           | vm_compute; reflexivity | vm_compute; intuition discriminate | ]).
   apply gc_nil.
 Qed.
+
+(* Non-vacuity of rd_reads_writer_output: every hypothesis holds on a concrete document (the example document of
+   Obj/C01FileProofs.v: catalog, page tree, a page with a dangling reference, one stream), by computation. *)
+
+Example rd_reads_writer_output_example :
+  exists v, rd_view (write_doc wm_unparse_string wm_unparse_name ex_doc) = RdDoc v /\ rw_view_of ex_doc v.
+Proof.
+  apply rd_reads_writer_output_lemma.
+  - exact wf_doc_example.
+  - vm_compute. reflexivity.
+  - vm_compute. reflexivity.
+  - exists 10, {| i_val := ODict [([80; 97; 103; 101; 115], ORef 20); ([84; 121; 112; 101], OName [67; 97; 116; 97; 108; 111; 103])]; i_stream := None |},
+           [([80; 97; 103; 101; 115], ORef 20); ([84; 121; 112; 101], OName [67; 97; 116; 97; 108; 111; 103])],
+           20, {| i_val := ODict [([67; 111; 117; 110; 116], OInt 1); ([75; 105; 100; 115], OArr [ORef 30]);
+                                  ([84; 121; 112; 101], OName [80; 97; 103; 101; 115])]; i_stream := None |},
+           [([67; 111; 117; 110; 116], OInt 1); ([75; 105; 100; 115], OArr [ORef 30]); ([84; 121; 112; 101], OName [80; 97; 103; 101; 115])].
+    repeat split; try reflexivity; cbn; auto.
+  - vm_compute. reflexivity.
+  - vm_compute. reflexivity.
+  - cbn. intros [H|[H|[]]]; discriminate H.
+Qed.
